@@ -20,7 +20,7 @@ let input_of = function
   | L [A "create"; ps; ts; rf; md; amd; force] ->
     M.ICreate (List.map posting_of (lst ps), (if atom ts = "nil" then None else Some (zarg ts)), str rf, meta_of md,
                List.map (function L [a; m] -> (str a, meta_of m) | _ -> failwith "bad accmeta") (lst amd), bool_of force)
-  | L [A "revert"; id; force; ateff] -> M.IRevert (zarg id, bool_of force, bool_of ateff)
+  | L [A "revert"; id; force; ateff; md] -> M.IRevert (zarg id, bool_of force, bool_of ateff, meta_of md)
   | L [A "setmeta"; t; md] -> M.ISetMeta (target_of t, meta_of md)
   | L [A "delmeta"; t; k] -> M.IDelMeta (target_of t, str k)
   | _ -> failwith "bad input"
